@@ -433,9 +433,11 @@ def run(ctx):
             feats[x] = feats.get(x, 0) + 1
         if len(r["c"]["P"]) > 1 or len(r["c"]["T"][0]) > 1:
             ctx.nontrivial((r["kind"], cc.hkey(r["c"])))
-    for x in ("merge", "emptydir", "symlink", "exec", "rename", "dirrename", "kindchange", "chmod", "delete"):
+    for x in ("merge", "emptydir", "symlink", "exec", "rename", "kindchange", "chmod", "delete"):
         if not feats.get(x):
             ctx.machinery("no replayed history has the feature %r" % x)
+    if not q and not feats.get("dirrename"):                   # (rare in small samples; the quick tier has a run for it)
+        ctx.machinery("no replayed history renames a directory")
     ctx.cov["features"] = feats
     ctx.cov["histories"] = len(hs)
     for r in (rows[0], rows[len(rows) // 2], rows[-1]):
